@@ -66,9 +66,10 @@ fn rand_sink(rng: &mut Rng) -> Vec<SinkStep> {
 
 /// systematic boundary family for C01: every string / binary payload length around the size-field boundaries,
 /// under the default and every explicit width that can hold it, at the root, inside a Start/End master and inside a Full
-fn rt_boundaries(out: &mut Out, n: &mut usize) {
+fn rt_boundaries(out: &mut Out, n: &mut usize, big: bool) {
     let s = gen::s3();
     for &len in &[0usize, 1, 126, 127, 128, 129, 16382, 16383, 16384, 16385] {
+        if len > 1000 && !big { continue; }
         for (leaf_id, is_str) in [(0x87u64, true), (0x88, false), (0xec, false)] {
             let need = { let l = len as u64; let mut w = gen::min_width(l); if l == (1u64 << (7 * w)) - 1 { w += 1; } w };
             for width in std::iter::once(0usize).chain(need..=8) {
@@ -95,10 +96,10 @@ fn rt_boundaries(out: &mut Out, n: &mut usize) {
 }
 
 /// C01: write a conformant tree under a random presentation and options, read it back strictly
-pub fn rt(out: &mut Out, rng: &mut Rng, count: usize, big: bool) {
+pub fn rt(out: &mut Out, rng: &mut Rng, count: usize, big: bool, big_boundaries: bool) {
     let mut n = 0usize;
     dynspec::install(gen::s3());
-    rt_boundaries(out, &mut n);
+    rt_boundaries(out, &mut n, big_boundaries);
     for i in 0..count {
         let s = pick_schema(rng, i);
         let o = DocOpts { max_tags: 24, big: big && i % 10 == 0, ..Default::default() };
@@ -299,16 +300,54 @@ pub fn calls(out: &mut Out, rng: &mut Rng, count: usize) {
             match op { WOp::Tag { tag, .. } => match &tag.v { DynVal::M(Master::Start) => ch.push(tag.id), DynVal::M(Master::End) => { ch.pop(); } _ => {} }, WOp::StartUnknownDeprecated { tag } => ch.push(tag.id), _ => {} }
         }
         chains.push(ch.clone());
+        // after_unknown_end[k]: the valid op before position k is the End of an unknown-size master (a raw tag written
+        // there would be read as its content: the ambiguity C07 excludes)
+        let mut after_unknown_end: Vec<bool> = vec![false];
+        { let mut st: Vec<bool> = Vec::new();
+          for op in &valid {
+              let mut flag = false;
+              match op { WOp::Tag { tag, unknown, .. } => match &tag.v { DynVal::M(Master::Start) => st.push(*unknown), DynVal::M(Master::End) => { flag = st.pop().unwrap_or(false); } _ => {} },
+                         WOp::StartUnknownDeprecated { .. } => st.push(true), _ => {} }
+              after_unknown_end.push(flag);
+          } }
         let mut with: Vec<WOp> = Vec::new(); let mut marks: Vec<bool> = Vec::new();
+        let mut without: Vec<WOp> = Vec::new();
+        let mut composite_done = false;
         for k in 0..=valid.len() {
-            for _ in 0..2 { if rng.chance(1, 3) { if let Some(f) = failing_call(rng, &s, &chains[k]) { with.push(f); marks.push(true); } } }
-            if k < valid.len() { with.push(valid[k].clone()); marks.push(false); }
+            // composite: a master started with size width 1 whose content grows beyond 126 bytes: its End must be rejected
+            // (size not representable) and leave the master open, exactly as if the End had never been attempted
+            // (only after the last valid call: the master stays open, which would change what is allowed afterwards)
+            if !composite_done && k == valid.len() && rng.chance(1, 2) {
+                let ms: Vec<&dynspec::Entry> = s.entries.iter().filter(|e| e.ty == TagDataType::Master && gen::matches(&e.path, &chains[k])).collect();
+                if !ms.is_empty() {
+                    let m = *rng.pick(&ms);
+                    let mut ch = chains[k].clone(); ch.push(m.id);
+                    let big: Vec<&dynspec::Entry> = gen::allowed_children(&s, &ch).into_iter().filter(|e| matches!(e.ty, TagDataType::Binary | TagDataType::Utf8)).collect();
+                    if !big.is_empty() {
+                        let e = *rng.pick(&big);
+                        let n = *rng.pick(&[127usize, 130, 200]);    // with the 2-3 header bytes: >= 127 bytes of content
+                        let kid = if e.ty == TagDataType::Binary { DynTag { id: e.id, v: DynVal::B(rng.bytes(n)) } } else { DynTag { id: e.id, v: DynVal::S("c".repeat(n)) } };
+                        let st = WOp::Tag { tag: start(m.id), width: 1, unknown: false };
+                        for o in [st.clone(), t(kid.clone())] { with.push(o.clone()); marks.push(false); without.push(o); }
+                        with.push(t(end(m.id))); marks.push(true);
+                        composite_done = true;
+                    }
+                }
+            }
+            for _ in 0..2 { if !composite_done && rng.chance(1, 3) { if let Some(f) = failing_call(rng, &s, &chains[k]) { with.push(f); marks.push(true); } } }
+            // write_raw (no validation at all): a well-formed id outside the specification, anywhere
+            if rng.chance(1, 6) && !after_unknown_end[k] {
+                let mut used = s.ids(); used.push(0xbf); used.push(0xec);
+                let o = WOp::WriteRaw { id: gen::rand_id(rng, &mut used, false), data: rng.bytes(3) };
+                with.push(o.clone()); marks.push(false); without.push(o);
+            }
+            if k < valid.len() { with.push(valid[k].clone()); marks.push(false); without.push(valid[k].clone()); }
         }
         if !marks.iter().any(|m| *m) { continue; }
         let fin = if rng.chance(1, 2) { WOp::Flush } else { WOp::IntoInner };
         with.push(fin.clone()); marks.push(false);
-        let mut without = valid.clone(); without.push(fin);
-        begin(out, &mut n, &s, "noop", json!({"inserted": marks}));
+        without.push(fin);
+        begin(out, &mut n, &s, "noop", json!({"inserted": marks, "raws": true}));
         run_writer(out, "with", &with, rand_sink(rng));
         run_writer(out, "without", &without, vec![]);
         out.ev(json!({"ev":"end"}));
@@ -342,7 +381,8 @@ pub fn run(out: &mut Out, which: &str, seed: u64, thorough: bool) {
     let mut rng = Rng::new(seed);
     let k = if thorough { 10 } else { 1 };
     match which {
-        "rt" => rt(out, &mut rng, 1000 * k, thorough),
+        "rt" => rt(out, &mut rng, 1000 * k, thorough, true),
+        "rt_small" => rt(out, &mut rng, 400 * k, false, false),
         "present" => present(out, &mut rng, 150 * k),
         "calls" => calls(out, &mut rng, 400 * k),
         "fix" => fix(out, &mut rng, 500 * k),
